@@ -10,6 +10,7 @@ import (
 	"fmt"
 	"math"
 	"math/rand"
+	"strings"
 
 	"github.com/willabides/rjson"
 )
@@ -135,6 +136,27 @@ func clsOf(pp int) (int, int) {
 	return 0, pp
 }
 
+// handleWarm, when set, makes runHandle use a Buffer of its own that was first used by function fn (1 Valid, 2 SkipValue,
+// 3 SkipValueFast, 4 HandleArrayValues with a handler answering 0) on an array nested L deep; it is logged, so that
+// replay recreates the same Buffer.
+var handleWarm [2]int
+
+func warmedBuffer(fn, l int) *rjson.Buffer {
+	b := &rjson.Buffer{}
+	d := expandSegs([]seg{{[]byte("["), l}, {[]byte("1"), 1}, {[]byte("]"), l}})
+	switch fn {
+	case 1:
+		rjson.Valid(d, b)
+	case 2:
+		rjson.SkipValue(d, b)
+	case 3:
+		rjson.SkipValueFast(d, b)
+	case 4:
+		rjson.HandleArrayValues(d, zeroArr, b)
+	}
+	return b
+}
+
 // runHandle executes one traversal and writes the event.
 func runHandle(sw *shardWriter, j *jb, kind byte, data []byte, script []answer, deflt answer, buf *rjson.Buffer, st *genStats, tag string) {
 	doc := make([]byte, len(data))
@@ -144,6 +166,10 @@ func runHandle(sw *shardWriter, j *jb, kind byte, data []byte, script []answer, 
 	var p int
 	var err error
 	panicked := 0
+	warm := handleWarm
+	if warm[0] != 0 {
+		buf = warmedBuffer(warm[0], warm[1])
+	}
 	func() {
 		defer func() {
 			if r := recover(); r != nil {
@@ -163,6 +189,8 @@ func runHandle(sw *shardWriter, j *jb, kind byte, data []byte, script []answer, 
 	j.bytes(data)
 	j.raw(`,"buf":`)
 	j.b01(buf != nil)
+	j.raw(`,"warm":`)
+	j.ints(warm[:])
 	j.raw(`,"calls":[`)
 	for i, c := range h.calls {
 		if i > 0 {
@@ -267,6 +295,39 @@ func genHandlers(c *genCtx) error {
 				}
 			})
 		})
+	}
+	// depth: well-formed documents nested deep but within 10,000 levels, traversed with a nil Buffer, a new one, and
+	// Buffers that another function left behind after a shallow or a deep document (stack growth policies start from
+	// what they find)
+	if c.want("depth") {
+		setCurrent("handlers depth")
+		type shape struct{ open, bottom, close string }
+		for _, n := range []int{6200, 8200, 10000} {
+			for _, sh := range []shape{{"[", "1", "]"}, {`{"a":`, `"s"`, "}"}, {`[{"a":`, "null", "}]"}} {
+				k := n / len(strings.ReplaceAll(strings.ReplaceAll(sh.close, " ", ""), ",", ""))
+				d := expandSegs([]seg{{[]byte(sh.open), k}, {[]byte(sh.bottom), 1}, {[]byte(sh.close), k}})
+				kind := byte('A')
+				if d[0] == '{' {
+					kind = 'O'
+				}
+				type bw struct {
+					buf  *rjson.Buffer
+					warm [2]int
+				}
+				bufs := []bw{{nil, [2]int{}}, {&rjson.Buffer{}, [2]int{}}}
+				for fn := 1; fn <= 4; fn++ {
+					for _, l := range []int{1, 2, 3, 64, 625, 5000} {
+						bufs = append(bufs, bw{nil, [2]int{fn, l}})
+					}
+				}
+				for _, b := range bufs {
+					handleWarm = b.warm
+					runHandle(c.sw, &j, kind, d, nil, zero, b.buf, c.st, "depth")
+					runHandle(c.sw, &j, kind, d, nil, exact, b.buf, c.st, "depth")
+				}
+				handleWarm = [2]int{}
+			}
+		}
 	}
 	// documents: random containers, corpus, walks
 	var docs [][]byte
@@ -422,6 +483,11 @@ func init() {
 		if b, _ := ev["buf"].(float64); b == 1 {
 			buf = &rjson.Buffer{}
 		}
+		handleWarm = [2]int{}
+		if w, ok := ev["warm"].([]interface{}); ok && len(w) == 2 {
+			handleWarm = [2]int{int(w[0].(float64)), int(w[1].(float64))}
+		}
+		defer func() { handleWarm = [2]int{} }()
 		runHandle(nil, &j, kind, data, script, answer{mode: modeZero}, buf, newStats(), "replay")
 		return append([]byte{}, j.b...), nil
 	}
